@@ -341,11 +341,12 @@ evaluate_rules.ghost_const = ("clock",)
 # =============================================================================================
 def replay_evaluate_rules(name, insts):
     import collections
+    import os
     import copy
     import sys
     from pyvc import native
 
-    sys.path.insert(0, "/repo")
+    sys.path.insert(0, os.environ.get("PYVC_REPO", "/repo"))
     from nostr_relay.rate_limiter import RateLimiter
 
     label = name.split("/post:")[-1] if "/post:" in name else None
